@@ -82,6 +82,35 @@ def build_repo(kind):
     return os.path.join(REPO_TARGET, "release" if kind == "release" else "debug", "engine")
 
 
+def run_miri(mode, args, seed, tier, out_path, timeout):
+    """Run a harness mode under the Miri interpreter. Returns (report|None, status, stderr tail)."""
+    ensure_harness_link()
+    env = base_env()
+    env["RUSTFLAGS"] = f"--cfg {GUARD}"
+    env["MIRIFLAGS"] = "-Zmiri-disable-isolation"
+    target = os.path.join(BUILD, "harness-miri")
+    cmd = ["cargo", "+nightly", "miri", "run", "--target-dir", target, "--", mode, "--seed", str(seed), "--tier", tier,
+           "--out", out_path] + list(args)
+    if os.path.exists(out_path):
+        os.remove(out_path)
+    try:
+        p = subprocess.run(cmd, cwd=HARNESS, env=env, stdout=subprocess.PIPE, stderr=subprocess.PIPE, text=True,
+                           timeout=timeout)
+    except subprocess.TimeoutExpired:
+        return None, "timeout", ""
+    err = p.stderr
+    if "Undefined Behavior" in err or "error: unsupported operation" in err:
+        # Miri stops at the first undefined behaviour: that is the observation
+        i = err.find("error:")
+        return {"miri_error": err[i:i + 3000]}, "miri-ub", err[-3000:]
+    if p.returncode != 0 or not os.path.exists(out_path):
+        return None, f"crashed(rc={p.returncode})", err[-3000:]
+    try:
+        return json.load(open(out_path)), "ok", err[-2000:]
+    except Exception as e:  # noqa: BLE001
+        return None, f"bad-report({e})", err[-2000:]
+
+
 # ---------------------------------------------------------------------------------------
 # known findings
 
